@@ -374,8 +374,11 @@ def run_property(pid: str, tier: str, seed: int) -> int:
     bounded_out = []
     bounded_failures = []
     bounded_crashes = []
+    # regression runs over many scratch copies (tools/run_patches.sh) may leave the bounded stand-ins out: they drive the
+    # real code with 16 worker processes each; only honoured together with VERIF_OUT, i.e. never for the evidence of /repo
+    skip_bounded = bool(os.environ.get("VERIF_SKIP_BOUNDED")) and bool(os.environ.get("VERIF_OUT"))
     for b in BOUNDED.values():
-        if pid in b["props"]:
+        if pid in b["props"] and not skip_bounded:
             try:
                 res = b["fn"](tier, seed)
             except Exception as e:  # noqa: BLE001
